@@ -33,7 +33,7 @@ def generate(ctx):
                "B": rng.randint(1, 4), "steps": rng.randint(1, 3), "seed": rng.randrange(1 << 30),
                # with per-synapse delays the synaptic data have the per-output form (B x out x in): hold the input constant for
                # longer than the longest delay and the delayed map is the undelayed one
-               "delay_steps": rng.choice([None, None, 2, 3])}
+               "delay_steps": rng.choice([None, None, 2, 3]), "via_init": rng.random() < 0.4}
     if th:
         grid = [(hw, hw, c, f, kh, kw, s, p, d) for hw in range(3, 10) for c in (1, 2, 3) for f in (1, 2, 3)
                 for kh in (1, 2, 3) for kw in (1, 2, 3) for s in (1, 2, 3) for p in (0, 1, 2) for d in (1, 2)
@@ -59,7 +59,7 @@ def generate(ctx):
     for _ in range(500 if th else 40):
         ops = [rng.choice(["set_weight", "set_delay", "update", "clamp", "normalize", "forward", "set_weight_param"])
                for _ in range(rng.randint(4, 14))]
-        yield {"part": "lateral_inv", "n": rng.choice([2, 3, 5]), "delay": rng.choice([True, True, False, "zero"]), "ops": ops,
+        yield {"part": "lateral_inv", "n": rng.choice([2, 3, 5]), "delay": rng.choice([True, True, False, "zero"]), "ops": ops, "via_init": rng.random() < 0.4,
                "seed": rng.randrange(1 << 30)}
 
 
@@ -144,24 +144,36 @@ def _linear(ctx, desc):
     try:
         K = desc.get("delay_steps")
         dl = float(K) if K else None
+        ini = {}
+        if desc.get("via_init"):
+            # parameters given through the documented initialiser callables instead of assignment after construction
+            ini = dict(weight_init=lambda x: torch.randn(x.shape, generator=g).to(x.dtype) + 1.5,
+                       bias_init=lambda x: torch.randn(x.shape, generator=g).to(x.dtype),
+                       delay_init=lambda x: torch.randint(0, (K or 0) + 1, x.shape, generator=g).to(x.dtype))
+            ctx.count("initialiser_built_connections")
         if kind == "dense":
-            conn = LinearDense(ish, osh, 1.0, synapse=_syn(), bias=desc["bias"], batch_size=B, delay=dl)
+            conn = LinearDense(ish, osh, 1.0, synapse=_syn(), bias=desc["bias"], batch_size=B, delay=dl, **ini)
         elif kind == "direct":
-            conn = LinearDirect(ish, 1.0, synapse=_syn(), bias=desc["bias"], batch_size=B, delay=dl)
+            conn = LinearDirect(ish, 1.0, synapse=_syn(), bias=desc["bias"], batch_size=B, delay=dl, **ini)
             osh = ish
         else:
-            conn = LinearLateral(ish, 1.0, synapse=_syn(), bias=desc["bias"], batch_size=B, delay=dl)
+            conn = LinearLateral(ish, 1.0, synapse=_syn(), bias=desc["bias"], batch_size=B, delay=dl, **ini)
             osh = ish
         conn.to(torch.float64)
         if K:
-            conn.delay = torch.randint(0, K + 1, conn.delay.shape, generator=g).to(torch.float64)
+            if not desc.get("via_init"):
+                conn.delay = torch.randint(0, K + 1, conn.delay.shape, generator=g).to(torch.float64)
             ctx.count("delayed_linear_cases")
     except Exception as e:  # noqa: BLE001
         return ctx.violation(ctx.exc_signature(e, f"construct.{kind}"), f"{type(e).__name__}: {str(e)[:140]}", desc)
     nin, nout = math.prod(ish), math.prod(osh)
-    conn.weight = torch.randn(conn.weight.shape, generator=g, dtype=torch.float64)
-    if desc["bias"]:
-        conn.bias = torch.randn(conn.bias.shape, generator=g, dtype=torch.float64)
+    if not desc.get("via_init"):
+        conn.weight = torch.randn(conn.weight.shape, generator=g, dtype=torch.float64)
+        if desc["bias"]:
+            conn.bias = torch.randn(conn.bias.shape, generator=g, dtype=torch.float64)
+    elif (conn.weight.numel() > 1 or kind != "lateral") and (
+            bool((conn.weight == 0).all()) or (desc["bias"] and bool((conn.bias == 0).all()))):     # a 1 x 1 lateral weight is all mask
+        return ctx.violation(f"{kind}.initialiser_ignored", "weight_init / bias_init had no effect", desc)
     ctx.case(f"linear/{kind}/in{len(ish)}d/out{len(osh)}d/bias{int(desc['bias'])}/B{B}")
     if tuple(conn.inshape) != ish or tuple(conn.outshape) != osh:
         return ctx.violation(f"{kind}.advertised_shape", f"inshape {conn.inshape} outshape {conn.outshape}", desc)
@@ -245,7 +257,10 @@ def _lateral_inv(ctx, desc):
     n = desc["n"]
     try:
         # delay: None (no delay parameter), 3.0, or 0.0 - documented as legal: the delay parameter exists, nothing is delayed yet
-        conn = LinearLateral(n, 1.0, synapse=_syn(), delay=({True: 3.0, False: None, "zero": 0.0}[desc["delay"]]), batch_size=1)
+        ini = {}
+        if desc.get("via_init"):
+            ini = dict(weight_init=lambda x: torch.rand(x.shape, generator=g) + 0.5, delay_init=lambda x: torch.rand(x.shape, generator=g) + 0.2)
+        conn = LinearLateral(n, 1.0, synapse=_syn(), delay=({True: 3.0, False: None, "zero": 0.0}[desc["delay"]]), batch_size=1, **ini)
         conn.updater = conn.defaultupdater()
     except Exception as e:  # noqa: BLE001
         return ctx.violation(ctx.exc_signature(e, "construct.lateral"), f"{type(e).__name__}: {str(e)[:140]}", desc)
